@@ -619,11 +619,11 @@ theorem fetchColdCycle_specF (hNX : NoFixpoint P) (c : Nat) (s : St) (v : Nat) (
           unfold isHead at h' ⊢
           rw [lookup_cons_ne _ _ hcc] at h'; exact h'
       refine ⟨?_, rfl, hE, Or.inr (Or.inl (lookup_cons_self _ _ _)), rfl, rfl,
-        by simp [isHead, lookup_cons_self]⟩
+        by simp [isHead]⟩
       refine ⟨hI.nodup, hI.stackFresh, hI.cacheNotFinal, ?_, hI.chain, ?_, ?_, ?_, hI.heads, ?_,
         hI.finalJust⟩
       · intro hno
-        exact absurd ⟨c, hc, by simp [isHead, lookup_cons_self]⟩ hno
+        exact absurd ⟨c, hc, by simp [isHead]⟩ hno
       · intro c' w hw
         have hw' : ((c, cycleInitial P c) :: s.prov).lookup c' = some w := hw
         by_cases hcc : c' = c
@@ -942,5 +942,26 @@ theorem eval_soundF (hNX : NoFixpoint P) {final : List (Nat × Nat)} (hdb : DbOk
     exact hP2 ⟨j, hself, List.mem_cons_self⟩ fv hstr
 
 end
+
+theorem dbOkF_nil (P : Prog) (env : Nat → Nat) : DbOkF P env [] :=
+  fun _ _ h => nomatch h
+
+/-- the memoised results as an assignment. -/
+def results (s : St) : Nat → Nat := fun c => (s.final.lookup c).getD 0
+
+/-- justified databases are preserved by requests (successful or panicking). -/
+theorem dbOkF_gets (P : Prog) (env : Nat → Nat) (hNX : NoFixpoint P) (js : List Nat) :
+    ∀ db : Db, DbOkF P env db.final → DbOkF P env (gets P env db js).final := by
+  induction js with
+  | nil => intro db h; exact h
+  | cons j js ih =>
+    intro db h
+    apply ih
+    unfold Db.get
+    cases he : eval P env db.final db.poisoned j with
+    | error e => exact h
+    | ok r =>
+      obtain ⟨v, s⟩ := r
+      exact (eval_soundF P env hNX h db.poisoned j v s he).2.1
 
 end SalsaVerif.Proofs.Cycle
